@@ -8,22 +8,46 @@ from .src import AnalysisError
 
 
 class Leg:
-    __slots__ = ("ids", "dim", "conj")
+    """one axis: an identity, or an ordered group of identities merged by a reshape (parts = [(identity, size), ...]); `cut` = the axis was sliced to its first `cut` entries;
+    `scaled` = names of vectors the tensor was multiplied with along this axis"""
+    __slots__ = ("parts", "conj", "cut", "scaled")
 
-    def __init__(self, ids, dim, conj=False):
-        self.ids = tuple(ids) if isinstance(ids, (list, tuple)) and ids and isinstance(ids[0], tuple) else (ids,)
-        self.dim, self.conj = dim, conj
+    def __init__(self, ids, dim, conj=False, cut=None, scaled=()):
+        if isinstance(ids, list) and ids and isinstance(ids[0], tuple) and len(ids[0]) == 2 and isinstance(ids[0][1], int) and isinstance(ids[0][0], tuple):
+            self.parts = [tuple(x) for x in ids]            # [(identity, size), ...]
+        else:
+            self.parts = [(ids, dim)]
+        self.conj, self.cut, self.scaled = conj, cut, tuple(scaled)
+
+    @property
+    def ids(self):
+        return tuple(p[0] for p in self.parts)
+
+    @property
+    def dim(self):
+        if self.cut is not None:
+            return self.cut
+        d = 1
+        for _, x in self.parts:
+            d *= x
+        return d
 
     @property
     def merged(self):
-        return len(self.ids) > 1
+        return len(self.parts) > 1
 
     def key(self):
-        return self.ids[0] if len(self.ids) == 1 else ("M",) + self.ids
+        return self.parts[0][0] if len(self.parts) == 1 else ("M",) + self.ids
+
+    def copy(self, **kw):
+        l = Leg(list(self.parts) if self.merged else self.parts[0][0], self.parts[0][1], self.conj, self.cut, self.scaled)
+        for k, v in kw.items():
+            setattr(l, k, v)
+        return l
 
     def __repr__(self):
-        s = ".".join(map(str, self.ids[0])) if len(self.ids) == 1 else "(" + " x ".join(".".join(map(str, i)) for i in self.ids) + ")"
-        return s + ("*" if self.conj else "")
+        s = ".".join(map(str, self.parts[0][0])) if len(self.parts) == 1 else "(" + " x ".join(".".join(map(str, i)) for i in self.ids) + ")"
+        return s + ("*" if self.conj else "") + (f"[:{self.cut}]" if self.cut is not None else "") + ("".join(f"~{x}" for x in self.scaled))
 
 
 class NT(Sym):
@@ -65,7 +89,7 @@ class NT(Sym):
         return NT(name or self._name, legs, self.edges, self.scale if scale is None else scale)
 
     def conj(self):
-        return self._new([Leg(l.ids if l.merged else l.ids[0], l.dim, not l.conj) for l in self.legs])
+        return self._new([l.copy(conj=not l.conj) for l in self.legs])
 
     conjugate = conj
 
@@ -89,15 +113,16 @@ class NT(Sym):
 
     def reshape(self, *shape):
         shape = list(shape[0]) if len(shape) == 1 and isinstance(shape[0], (list, tuple)) else list(shape)
-        flat = []
+        # elementary axes in order: a merged axis counts as its parts (a cut merged axis cannot be split)
+        elems = []
         for l in self.legs:
-            flat.extend([(i, l.conj) for i in l.ids] if l.merged else [(l.ids[0], l.conj)])
-        dims = {}
-        for l in self.legs:
-            if l.merged:
-                raise AnalysisError(f"reshape of an already merged tensor {self!r} is not modelled")
-            dims[l.ids[0]] = l.dim
-        total = self.size
+            if l.merged and l.cut is None:
+                elems.extend(Leg(i_, d_, l.conj, None, l.scaled) for i_, d_ in l.parts)
+            else:
+                elems.append(l)
+        total = 1
+        for l in elems:
+            total *= l.dim
         if shape.count(-1) > 1:
             raise AnalysisError("reshape with more than one -1")
         if -1 in shape:
@@ -110,29 +135,31 @@ class NT(Sym):
             shape[shape.index(-1)] = total // known
         out, k = [], 0
         for s_ in shape:
+            if not isinstance(s_, int):
+                raise AnalysisError(f"reshape to a non-integer size {s_!r}")
             grp, p = [], 1
-            if s_ == 1 and (k >= len(self.legs) or self.legs[k].dim != 1):
+            while k < len(elems) and (p < s_ or (s_ == 1 and not grp and elems[k].dim == 1)):
+                grp.append(elems[k])
+                p *= elems[k].dim
+                k += 1
+                if s_ == 1:
+                    break
+            if not grp and s_ == 1:
                 out.append(Leg(("one",), 1))
                 continue
-            while k < len(self.legs) and p < s_:
-                grp.append(self.legs[k])
-                p *= self.legs[k].dim
-                k += 1
-            if not grp and k < len(self.legs) and self.legs[k].dim == 1 and s_ == 1:
-                grp.append(self.legs[k])
-                k += 1
             if p != s_:
-                raise ValueError(f"cannot reshape array of shape {self.shape} into shape {tuple(shape)} (sizes are distinct primes: the target splits a leg or merges non-adjacent legs)")
+                raise ValueError(f"cannot reshape array of shape {self.shape} into shape {tuple(shape)} (sizes are distinct primes: the target splits an axis or merges non-adjacent axes)")
             if len(grp) == 1:
                 out.append(grp[0])
             else:
                 if len({g.conj for g in grp}) != 1:
-                    raise AnalysisError("reshape merges a conjugated with a plain leg")
-                out.append(Leg([g.ids[0] for g in grp], s_, grp[0].conj))
-        # trailing legs of size one may be dropped by a reshape
-        while k < len(self.legs) and self.legs[k].dim == 1:
+                    raise AnalysisError("reshape merges a conjugated with a plain axis")
+                if any(g.cut is not None or g.merged for g in grp):
+                    raise AnalysisError("reshape merges a truncated / already merged axis")
+                out.append(Leg([(g.parts[0][0], g.parts[0][1]) for g in grp], s_, grp[0].conj, None, tuple(x for g in grp for x in g.scaled)))
+        while k < len(elems) and elems[k].dim == 1:
             k += 1
-        if k != len(self.legs):
+        if k != len(elems):
             raise ValueError(f"cannot reshape array of shape {self.shape} into shape {tuple(shape)}")
         return self._new(out)
 
@@ -151,11 +178,36 @@ class NT(Sym):
         for l, x in zip(legs, k):
             if isinstance(x, slice) and x == slice(None):
                 out.append(l)
+            elif isinstance(x, slice) and x.start in (None, 0) and x.step in (None, 1) and isinstance(x.stop, int):
+                out.append(l.copy(cut=min(x.stop, l.dim)))          # a prefix of the axis
             elif isinstance(x, int):
                 continue
             else:
                 raise AnalysisError(f"index {x!r} of an abstract tensor is not modelled")
         return self._new(out)
+
+    @property
+    def pdim(self):
+        return [l.dim for l in self.legs[1:-1]]
+
+    @property
+    def pdim_prod(self):
+        p = 1
+        for d in self.pdim:
+            p *= d
+        return p
+
+    @property
+    def nbytes(self):
+        return 8 * self.size
+
+    @property
+    def base(self):
+        return self
+
+    @property
+    def dtype(self):
+        return "dtype"
 
     def __mul__(self, o):
         if isinstance(o, NT):
@@ -240,10 +292,15 @@ def einsum(spec, *ops):
                 raise AnalysisError(f"einsum index {ch} summed over {len(ls)} operands")
             edges.append((ls[0].key(), ls[0].conj, ls[1].key(), ls[1].conj))
         elif len(ls) != 1:
-            raise AnalysisError(f"einsum index {ch} is both shared and kept (batch index): not modelled")
+            # kept and shared: multiplication of a tensor along one axis by a vector (diagonal scaling)
+            vec = [t for term, t in zip(ins, ops) if term == ch and t.ndim == 1]
+            oth = [l for term, t in zip(ins, ops) for c2, l in zip(term, t.legs) if c2 == ch and t.ndim > 1]
+            if len(ls) != 2 or len(vec) != 1 or len(oth) != 1:
+                raise AnalysisError(f"einsum index {ch} is both shared and kept: only scaling by a vector is modelled")
+            where[ch] = [oth[0].copy(scaled=oth[0].scaled + (vec[0]._name,))]
     for ch in out:
         legs.append(where[ch][0])
-    return NT("einsum", legs, edges, sum((t.scale for t in ops), ()))
+    return NT("einsum", legs, edges, sum((t.scale for t in ops if t.ndim > 1), ()))
 
 
 def np_namespace(**extra):
